@@ -49,6 +49,8 @@ type MemberPlan struct {
 	// relative to the block in which the leader's shared transaction data record first appeared (bootAt):
 	CancelAfterBoot []int  `json:"cancelAfterBoot"` // [d1, d2]: context cancelled at bootAt+d1, fresh run started at bootAt+d2
 	PauseAfterBoot  []int  `json:"pauseAfterBoot"`  // [d1, k]: new-block notifications withheld while bootAt+d1 <= height < bootAt+d1+k
+	// relative to the block in which the Notary role was first seen designated to the whole committee (notaryAt):
+	CancelAfterNotary []int `json:"cancelAfterNotary"` // [d1, d2]: context cancelled at notaryAt+d1, fresh run started at notaryAt+d2
 	Losses          []Loss `json:"losses"`          // lossy delivery: the k-th submission of a class is acknowledged but never reaches the node
 }
 
@@ -106,6 +108,7 @@ type member struct {
 	lost        int
 	lossy       bool
 	bootApplied bool
+	notaryApplied bool
 }
 
 type world struct {
@@ -126,6 +129,7 @@ type world struct {
 	fwSince  int
 	fwTotal  int
 	prevFw   int
+	notaryAt int // height at which the Notary role was first seen designated to the whole committee (-1: not yet)
 	bootAt   int // height at which the shared transaction data record was first seen (-1: not yet)
 }
 
@@ -553,6 +557,15 @@ func (w *world) phase(budget int, schedule bool) (why string, lastChange int) {
 					m.plan.Pauses = append(m.plan.Pauses, [2]int{w.bootAt + m.plan.PauseAfterBoot[0], m.plan.PauseAfterBoot[1]})
 				}
 			}
+			if schedule && w.notaryAt < 0 && w.notaryDesignated() {
+				w.notaryAt = h
+			}
+			if schedule && w.notaryAt >= 0 && !m.notaryApplied { // resolve the Notary-relative entries once
+				m.notaryApplied = true
+				if len(m.plan.CancelAfterNotary) == 2 {
+					m.plan.Cancels = append(m.plan.Cancels, [2]int{w.notaryAt + m.plan.CancelAfterNotary[0], w.notaryAt + m.plan.CancelAfterNotary[1]})
+				}
+			}
 			p := m.plan
 			if !schedule {
 				p = MemberPlan{}
@@ -673,9 +686,12 @@ func TestE2E(t *testing.T) {
 		if sc.Members[i].PauseAfterBoot == nil {
 			sc.Members[i].PauseAfterBoot = []int{}
 		}
+		if sc.Members[i].CancelAfterNotary == nil {
+			sc.Members[i].CancelAfterNotary = []int{}
+		}
 	}
 	t0 := time.Now()
-	w := &world{t: t, sc: sc, fs: map[string]contracts.Contract{}, nefSum: map[string]uint32{}, logDir: os.Getenv("VERIF_E2E_LOGDIR"), bootAt: -1}
+	w := &world{t: t, sc: sc, fs: map[string]contracts.Contract{}, nefSum: map[string]uint32{}, logDir: os.Getenv("VERIF_E2E_LOGDIR"), bootAt: -1, notaryAt: -1}
 	fs, err := contracts.GetFS()
 	require.NoError(t, err)
 	for _, c := range fs {
